@@ -25,7 +25,9 @@ RULE = ("histories of 25..55 operations by 3..5 raw clients (+1 passive observer
         "which NoReply errors arrived (exactly one per slot closed by disconnect / timeout, none otherwise, never before "
         "reply_timeout elapsed); then, after one more round-trip, the bus's own pending-reply list (state dump of hook H1) "
         "must equal the model's set of open slots (a slot missing in the bus is tolerated only once its deadline has "
-        "passed). distinct = (operation class, message type, addressing, expected fate, observed fate, "
+        "passed). Expiry behind a younger call (own buses, reply_timeout 1.6 s): with an older and a younger call outstanding "
+        "the older one's NoReply (after its timeout / after its callee's hang-up) may be no later than a lone call's and the younger "
+        "call's own NoReply on the same bus plus 300 ms; counted only when a fresh bus repeats it. distinct = (operation class, message type, addressing, expected fate, observed fate, "
         "finite timeout?, small limit?)")
 
 BUS = b"org.freedesktop.DBus"
@@ -815,6 +817,147 @@ def _worker(args):
         shutil.rmtree(rundir, ignore_errors=True)
     return part
 
+# ======================================================================================= expiry behind a younger call
+# Bounded progress of the NoReply clause when SEVERAL calls are outstanding: the slot of an older call must be closed when
+# ITS timeout elapses (or its callee hangs up), whatever younger calls are still open in front of it in the bus's list.
+# Lateness is a wall-clock quantity, so it is judged against controls measured on the same bus in the same seconds
+# (a lone call's NoReply, and the younger call's own NoReply), needs a large margin, and counts only when a second run on
+# a fresh bus repeats it.
+
+LATE_T = 1.6          # reply_timeout of these buses (s)
+LATE_MARGIN = 0.30    # how late the older call's NoReply may be, beyond what the controls show the machine does anyway
+
+
+def _await_noreply(c, serial, limit_s):
+    """-> arrival time (time.monotonic()) of the bus's error for `serial` on c, or None"""
+    deadline = time.monotonic() + limit_s
+    while time.monotonic() < deadline:
+        try:
+            rec = c.recv(timeout=max(0.01, deadline - time.monotonic()))
+        except client.Timeout:
+            return None
+        k = rec.msg.known()
+        if rec.msg.type == 3 and k.get(5) == serial and k.get(7) == BUS:
+            return time.monotonic()
+    return None
+
+
+def lateness_case(b, rundir, mode):
+    """mode 'timeout': old call A->B, half a timeout later young call C->D, nobody answers.
+       mode 'hangup':  old call A->B, young call C->D, then B hangs up.
+       -> dict of measured latenesses (s) or {'inconclusive': why}"""
+    cfg = busproc.make_config("@SOCK@", policy_xml=policy_xml(), limits={"reply_timeout": int(LATE_T * 1000)})
+    d = busproc.Daemon(b, rundir, cfg, name="late")
+    out = {}
+    cl = []
+    try:
+        if not d.started():
+            return {"inconclusive": "daemon did not start"}
+        names = {}
+        for i, nm in enumerate("ABCD"):
+            c = client.connect(d.sock)
+            c.bus_call(b"RequestName", b"su", [TEST_NAMES[i], 0])
+            names[nm] = c
+            cl.append(c)
+        A, B, C, D = (names[x] for x in "ABCD")
+
+        def call(src, dst_i):
+            serial, data = src.build(1, path=b"/t", iface=b"com.example.I", member=b"M", dest=TEST_NAMES[dst_i], sig=b"s", body=[b"late"])
+            t = time.monotonic()
+            src.send_msg(data, serial)
+            return serial, t
+
+        # control: a lone call
+        s0, t0 = call(A, 1)
+        a0 = _await_noreply(A, s0, LATE_T + client.WATCHDOG)
+        if a0 is None:
+            return {"inconclusive": "control call got no NoReply"}
+        out["control"] = a0 - t0 - LATE_T
+        if mode == "timeout":
+            s1, t1 = call(A, 1)
+            time.sleep(LATE_T / 2)
+            s2, t2 = call(C, 3)
+            a1 = _await_noreply(A, s1, LATE_T + client.WATCHDOG)
+            a2 = _await_noreply(C, s2, LATE_T + client.WATCHDOG)
+            if a1 is None or a2 is None:
+                return dict(out, missing="old" if a1 is None else "young")
+            out["old"] = a1 - t1 - LATE_T
+            out["young"] = a2 - t2 - LATE_T
+        else:
+            s1, t1 = call(A, 1)
+            s2, t2 = call(C, 3)
+            A.barrier()
+            C.barrier()
+            th = time.monotonic()
+            B.close()
+            a1 = _await_noreply(A, s1, LATE_T + client.WATCHDOG)
+            a2 = _await_noreply(C, s2, LATE_T + client.WATCHDOG)
+            if a1 is None or a2 is None:
+                return dict(out, missing="old" if a1 is None else "young")
+            out["old"] = a1 - th                      # after the hang-up, no timeout has to pass
+            out["young"] = a2 - t2 - LATE_T
+        return out
+    except (client.Timeout, client.Closed) as e:
+        return {"inconclusive": "client %s" % type(e).__name__}
+    finally:
+        for c in cl:
+            try:
+                c.close()
+            except Exception:
+                pass
+        d.stop()
+        shutil.rmtree(rundir, ignore_errors=True)
+
+
+def _late_worker(args):
+    seed, shard, n = args
+    part = report.Part()
+    b = build.build("asan", quiet=True)
+    base = tempfile.mkdtemp(prefix="verif-c09l-")
+    try:
+        for i in range(n):
+            mode = "timeout" if (shard + i) % 2 == 0 else "hangup"
+            part.evaluations += 1
+            verdicts = []
+            for attempt in (0, 1):
+                m = lateness_case(b, os.path.join(base, "c%d-%d" % (i, attempt)), mode)
+                if "inconclusive" in m:
+                    part.count("late-part:inconclusive-sample")
+                    verdicts.append(None)
+                    break
+                if "missing" in m:
+                    verdicts.append(("missing", m))
+                    continue
+                noise = max(0.0, m["control"], m["young"])
+                part.count("late-part:samples:" + mode)
+                part.counters["late-part:max-control-lateness-ms"] = max(part.counters.get("late-part:max-control-lateness-ms", 0), int(noise * 1000))
+                if m["old"] > noise + LATE_MARGIN:
+                    verdicts.append(("late", m))
+                    continue
+                part.count("late-part:old-call-expired-on-time:" + mode)
+                part.sig("late", mode, int(m["old"] * 20))
+                verdicts.append(None)
+                break
+            if len(verdicts) == 2 and all(verdicts):
+                kind, m = verdicts[1]
+                if kind == "missing":
+                    part.violation("%s:noreply-missing-with-younger-call-open:%s" % (PROP, mode),
+                                   "with a younger call outstanding the %s call got no NoReply at all (twice)" % m["missing"], {"mode": mode, "measured": m})
+                else:
+                    part.violation("%s:noreply-late-behind-younger-call:%s" % (PROP, mode),
+                                   "the older of two outstanding calls got its NoReply %.0f ms late (%s) while a lone call and the younger call were "
+                                   "%.0f / %.0f ms late on the same bus; repeated on a fresh bus" % (m["old"] * 1000, mode, m["control"] * 1000, m["young"] * 1000),
+                                   {"mode": mode, "measured": m, "first_run": verdicts[0][1]})
+    finally:
+        shutil.rmtree(base, ignore_errors=True)
+    return part
+
+
+def _any_worker(args):
+    if args[0] == "late":
+        return _late_worker(args[1:])
+    return _worker(args)
+
 
 REQUIRED = ["reply:genuine:delivered", "reply:duplicate:refused", "reply:wrong-serial:refused", "reply:third-party:refused",
             "reply:to-third-party:refused", "reply:no-reply-call:refused", "reply:refused-call:refused",
@@ -844,13 +987,20 @@ def run(tier, seed, replay=None, scale=1.0):
         return r.finish()
     total = int((320 if tier == "quick" else 8000) * scale)
     per = max(1, total // 16)
-    for part in report.run_sharded(_worker, [(seed, i, per) for i in range(16)]):
+    nlate = max(1, int((16 if tier == "quick" else 96) * scale))
+    shards = [(seed, i, per) for i in range(16)] + [("late", seed, i, max(1, nlate // 8)) for i in range(min(8, nlate))]
+    for part in report.run_sharded(_any_worker, shards):
+        if "late-part:max-control-lateness-ms" in part.counters:
+            r.extra["late_part_max_control_lateness_ms"] = max(r.extra.get("late_part_max_control_lateness_ms", 0),
+                                                                part.counters.pop("late-part:max-control-lateness-ms"))
         r.merge(part)
     r.extra["outcome_classes"] = {k: int(v) for k, v in sorted(r.counters.items()) if k.startswith(("reply:", "call:", "noreply:"))}
     r.extra["policy"] = policy_xml()
     for k in REQUIRED:
         r.require(k, 3 if scale >= 1 else 1)
     r.require("daemon-stderr-scraped", 1)
+    r.require("late-part:old-call-expired-on-time:timeout", 3 if scale >= 1 else 0)
+    r.require("late-part:old-call-expired-on-time:hangup", 3 if scale >= 1 else 0)
     r.require("call:recv-denied:" + pm.REFUSE_DENIED, int(100 * min(1.0, scale)))
     r.require("reply:refused-call:refused", int(60 * min(1.0, scale)))
     r.require("dump-comparisons", int(5000 * min(1.0, scale)))
